@@ -314,3 +314,59 @@ Proof.
   all: apply weak_to_spec; [exact Hg | rewrite Hg; exact Hg0 | exact Hbez | | ].
   all: rewrite Hgtr, ?Habs_s, ?Habs_t, Htr, ?Hts, ?Htt; assumption.
 Qed.
+
+(* ------------------------------------------------------------------ the documented normalisation is unique *)
+Lemma small_multiple_zero : forall B d, (B | d) -> Z.abs d < Z.abs B -> d = 0.
+Proof.
+  intros B d [k Hk] Hlt. subst d. rewrite Z.abs_mul in Hlt.
+  destruct (Z.eq_dec k 0) as [->|Hk0]; [ring|]. exfalso.
+  assert (1 <= Z.abs k) by lia. assert (0 <= Z.abs B) by lia. nia.
+Qed.
+
+Lemma cofactor_unique_core : forall A B s t s' t', s * A + t * B = 1 -> s' * A + t' * B = 1 ->
+  2 * Z.abs s < Z.abs B -> 2 * Z.abs s' < Z.abs B -> s = s'.
+Proof.
+  intros A B s t s' t' H1 H2 Hs Hs'.
+  assert (Hrp : rel_prime B A).
+  { apply bezout_rel_prime. apply (Bezout_intro B A 1 t s). lia. }
+  assert (Hdiv : (B | (s - s') * A)).
+  { exists (t' - t). lia. }
+  rewrite Z.mul_comm in Hdiv. apply Gauss in Hdiv; [|exact Hrp].
+  assert (s - s' = 0); [|lia]. apply (small_multiple_zero B); auto. lia.
+Qed.
+
+(* "these relations define s and t uniquely" (GMP manual): two triples that satisfy the documented specification
+   of mpz_gcdext are equal -- so a backend whose gcd_ext satisfies it returns what GMP returns *)
+Theorem gcdext_spec_unique : forall a b g s t g' s' t',
+  gmp_gcdext_spec a b g s t -> gmp_gcdext_spec a b g' s' t' -> g = g' /\ s = s' /\ t = t'.
+Proof.
+  intros a b g s t g' s' t' (Hg & Hbez & Hn) (Hg' & Hbez' & Hn').
+  split; [congruence|]. subst g'.
+  destruct (Z.abs a =? Z.abs b) eqn:Eab.
+  { destruct Hn as [-> ->], Hn' as [-> ->]. auto. }
+  assert (Hg0 : 0 < g).
+  { subst g. assert (H := Z.gcd_nonneg a b). assert (H' := Z.gcd_eq_0 a b).
+    destruct (Z.eq_dec (Z.gcd a b) 0) as [E|E]; [|lia]. apply H' in E. destruct E; subst. discriminate. }
+  destruct (Z.gcd_divide_l a b) as [A HA]. destruct (Z.gcd_divide_r a b) as [B HB].
+  rewrite <- Hg in HA, HB.
+  destruct (scale_abs a A g Hg0 HA) as [Hab Hsa]. destruct (scale_abs b B g Hg0 HB) as [Hbb Hsb].
+  assert (Hgne : g <> 0) by (clear - Hg0; lia).
+  assert (He : s * A + t * B = 1).
+  { apply (Z.mul_reg_r _ _ g); [exact Hgne|]. rewrite <- Hbez at 2. rewrite HA, HB. ring. }
+  assert (He' : s' * A + t' * B = 1).
+  { apply (Z.mul_reg_r _ _ g); [exact Hgne|]. rewrite <- Hbez' at 2. rewrite HA, HB. ring. }
+  destruct Hn as [Hs Ht], Hn' as [Hs' Ht'].
+  assert (Hss : s = s').
+  { destruct ((b =? 0) || (Z.abs b =? 2 * g)); [congruence|].
+    rewrite Hbb in Hs, Hs'.
+    apply (cofactor_unique_core A B s t s' t' He He').
+    - apply (Z.mul_lt_mono_pos_r g); [exact Hg0|]. clear - Hs. lia.
+    - apply (Z.mul_lt_mono_pos_r g); [exact Hg0|]. clear - Hs'. lia. }
+  assert (Htt : t = t').
+  { destruct ((a =? 0) || (Z.abs a =? 2 * g)); [congruence|].
+    rewrite Hab in Ht, Ht'.
+    apply (cofactor_unique_core B A t s t' s'); [clear - He; lia | clear - He'; lia | |].
+    - apply (Z.mul_lt_mono_pos_r g); [exact Hg0|]. clear - Ht. lia.
+    - apply (Z.mul_lt_mono_pos_r g); [exact Hg0|]. clear - Ht'. lia. }
+  auto.
+Qed.
